@@ -46,13 +46,38 @@ def cases(rng, tier):
             if r < pa: ops.append(["a", x])
             elif r < pa + 0.35: ops.append(["u", x, y if rng.random() > 0.1 else x])
             elif r < pa + 0.5: ops.append(["f", x])
-            elif r < pa + 0.7: ops.append(["c", x, y])
-            else: ops.append(["k", x])
+            elif r < pa + 0.65: ops.append(["c", x, y])
+            elif r < pa + 0.8: ops.append(["k", x])
+            elif r < pa + 0.9: ops.append(["r"])
+            else: ops.append(["m"])
         yield {"t": "uf", "kind": kind, "elems": _elements(kind, ne, rng), "ops": ops}
+    # deep trees: binomial merges of equal-size components through their current representatives, in either
+    # argument order, with NO query before the first whole-structure query (path halving must not have flattened them)
+    for _ in range(n_uf // 4):
+        kind = rng.choice(["int", "str", "tuple"])
+        k = rng.choice([2, 3, 3, 4])
+        ne = 2 ** k
+        order = list(range(ne)); rng.shuffle(order)
+        ops = [["a", i] for i in order] if rng.random() < 0.5 else []
+        groups = [[i] for i in order]
+        reps = {i: i for i in order}          # a root-ish representative: the element that stayed root (by model of weighted union)
+        while len(groups) > 1:
+            nxt = []
+            for a, b in zip(groups[0::2], groups[1::2]):
+                x, y = (a[0], b[0]) if rng.random() < 0.5 else (b[0], a[0])
+                ops.append(["u", x, y])
+                # with equal sizes the FIRST argument's root stays root
+                nxt.append(([x] + [e for e in a + b if e != x]))
+            groups = nxt
+        tail = rng.choice([["r"], ["m"], ["k", rng.randrange(ne)], ["r"], ["m"]])
+        ops.append(tail)
+        for _ in range(rng.randint(0, 4)):
+            ops.append(rng.choice([["r"], ["m"], ["k", rng.randrange(ne)], ["c", rng.randrange(ne), rng.randrange(ne)]]))
+        yield {"t": "uf", "kind": kind, "elems": _elements(kind, ne, rng), "ops": ops, "fam": "binomial"}
     if tier == "thorough":
         # exhaustive small scope (a test of the model tie, not a proof)
         import itertools
-        alpha = [["a", 0], ["a", 1], ["u", 0, 1], ["u", 1, 2], ["u", 0, 0], ["c", 0, 2], ["k", 1], ["f", 2]]
+        alpha = [["a", 0], ["a", 1], ["u", 0, 1], ["u", 1, 2], ["u", 0, 0], ["c", 0, 2], ["k", 1], ["f", 2], ["r"], ["m"]]
         for L in range(1, 5):
             for seq in itertools.product(alpha, repeat=L):
                 yield {"t": "uf", "kind": "int", "elems": [7, 8, 9], "ops": [list(o) for o in seq]}
@@ -89,6 +114,8 @@ def _hashable(e):
 def _uf_labels(uf):
     """partition labels from the *public* API: for each element (in insertion order) the position of
     the first element it is connected to."""
+    import copy
+    uf = copy.deepcopy(uf)      # observing must not compress the paths of the instance under test
     elts = [uf[i] for i in range(len(uf))]
     labs = []
     for i, e in enumerate(elts):
@@ -105,10 +132,22 @@ def _run_uf(case):
     recs, checks = [], []
     for o in case["ops"]:
         k = o[0]
-        x = elems[o[1]]
+        x = elems[o[1]] if len(o) > 1 else None
         ans = "-"
         try:
-            if k == "a": uf.add(x)
+            if k == "r":
+                eltsb, labsb = _uf_labels(uf)
+                rs = uf.roots()
+                import copy
+                pr = copy.deepcopy(uf)
+                good = sum(1 for r in rs if isinstance(r, int) and 0 <= r < len(uf) and pr.find(pr[r]) == r)
+                rl = sorted(labsb[r] for r in rs if isinstance(r, int) and 0 <= r < len(uf))
+                ans = f"{len(rs)}:{good}:{len(rl)}{''.join(' ' + str(l) for l in rl)}"
+            elif k == "m":
+                comps = uf.components()
+                keys = sorted(" ".join([str(len(c))] + [str(i) for i in sorted(elems.index(e) for e in c)]) for c in comps)
+                ans = f"{len(comps)}/" + "/".join(keys)
+            elif k == "a": uf.add(x)
             elif k == "u": uf.union(x, elems[o[2]])
             elif k == "f":
                 present = x in uf
@@ -188,11 +227,13 @@ def oracle(case):
                             if lab[e] == M: lab[e] = m
                         changed = True
             return lab
+        import copy
         for step, o in enumerate(case["ops"]):
-            k, x = o[0], elems[o[1]]
-            kindtag = type(x).__name__
+            k, x = o[0], (elems[o[1]] if len(o) > 1 else None)
             try:
-                if k == "a":
+                if k == "r": uf.roots()
+                elif k == "m": uf.components()
+                elif k == "a":
                     uf.add(x)
                     if x not in present: present.append(x)
                 elif k == "u":
@@ -208,7 +249,7 @@ def oracle(case):
                     if x in present and y in present: uf.connected(x, y)
                 elif k == "k":
                     if x in present:
-                        comp = uf.component(x)
+                        comp = uf.component(x)  # (the history's own query, on the instance itself)
                         lab = classes()
                         want = {e for e in present if lab[e] == lab[x]}
                         got = set(c.item() if hasattr(c, "item") else c for c in comp)
@@ -225,19 +266,24 @@ def oracle(case):
                 out.append({"key": "C20/uf/count-elts", "what": "element count wrong", "detail": f"step {step}"})
             if uf.n_comps != n_classes:
                 out.append({"key": "C20/uf/count-comps", "what": "component count wrong", "detail": f"step {step}: {uf.n_comps} vs {n_classes}"})
+            # every whole-structure query is asked FIRST on its own deep copy of the state reached by the history,
+            # so that no earlier query of the oracle has compressed paths for it
+            probe = copy.deepcopy(uf)
             for a in present:
                 if a not in uf:
                     out.append({"key": "C20/uf/contains", "what": "present element not contained", "detail": str(a)})
                 for b in present:
-                    if uf.connected(a, b) != (lab[a] == lab[b]):
+                    if probe.connected(a, b) != (lab[a] == lab[b]):
                         out.append({"key": "C20/uf/connected", "what": "connected differs from union-chain closure",
                                     "detail": f"step {step}: {a},{b}"})
                         return out
             try:
-                roots = uf.roots()
-                if len(roots) != n_classes or len({uf.find(e) for e in present}) != n_classes:
-                    out.append({"key": "C20/uf/roots", "what": "root set does not describe the partition", "detail": f"step {step}"})
-                comps = uf.components()
+                p1 = copy.deepcopy(uf)
+                roots = p1.roots()
+                p1b = copy.deepcopy(uf)
+                if len(roots) != n_classes or {p1b.find(e) for e in present} != set(roots):
+                    out.append({"key": "C20/uf/roots", "what": "root set does not describe the partition", "detail": f"step {step}: roots()={sorted(map(str, roots))} for {n_classes} classes"})
+                comps = copy.deepcopy(uf).components()
                 flat = [e for c in comps for e in c]
                 if sorted(map(repr, flat)) != sorted(map(repr, present)) or \
                         any(len({lab[e] for e in c}) != 1 for c in comps) or len(comps) != n_classes:
@@ -246,7 +292,7 @@ def oracle(case):
                 out.append({"key": f"C20/uf/roots-components/raises/{case['kind']}", "what": f"roots/components raised {type(e).__name__}", "detail": str(e)})
             if present:
                 try:
-                    cm = uf.component_mapping()
+                    cm = copy.deepcopy(uf).component_mapping()
                     ok = set(cm.keys()) == set(present) and all(
                         {c.item() if hasattr(c, "item") else c for c in cm[e]} == {f for f in present if lab[f] == lab[e]} for e in present)
                     if not ok:
